@@ -49,6 +49,10 @@ class _Unrecognised(Exception):
     pass
 
 
+class _NanUnknown(Exception):
+    pass
+
+
 def analyse_scan_k(prog, rep, kern, entry, k, O, mode, earlier, data=None, listparam=None):
     """one directional scan on the interpreted kernel (kai): returns (axis, direction, bound variable).
 
@@ -194,6 +198,37 @@ def analyse_scan_k(prog, rep, kern, entry, k, O, mode, earlier, data=None, listp
         if p0 is None and isinstance(pre2, tuple) and pre2 and pre2[0] in ('truth', 'cmp', 'and', 'or', 'not') and depth <= 3:
             # the flag may already be set when the loop starts (`if nan_listed and isnan(v): r = True` before the search)
             p0 = 1 if ev_guard(pre2, env_cell, lst, depth + 1) else 0
+        if (f2 is None or f2[0] is None) and p0 is not None and L2 is not None and depth <= 3 and not getattr(L2, 'breaks', None) and \
+                (nm in getattr(L2, 'carried', {}) or getattr(L2, 'end_env', {}).get(nm) is not None):
+            # not a set-only flag: a value rewritten by every element (`seen = isnan(e)`).  On a model list the loop is simply
+            # run: the value after it is what the update makes of the previous value, element by element
+            from ..kutil import evaluate
+            if nm in getattr(L2, 'carried', {}):
+                phi_, post_ = L2.carried[nm]
+                ph_atoms = list(phi_.atoms()) if isinstance(phi_, Rat) else []
+            else:
+                post_, ph_atoms = L2.end_env[nm], [None]        # rewritten without looking at its previous value
+            itb = getattr(L2, 'iterable', None)
+            over_list = itb == ('param', listparam) or getattr(itb, 'name', None) == listparam or \
+                (L2.kind == 'range' and L2.lo == Rat.const(0) and listparam in repr(L2.hi))
+            if over_list and len(ph_atoms) == 1 and (isinstance(post_, Rat) or isinstance(post_, tuple)):
+                if not any(L2 is x for x in used_loops):
+                    used_loops.append(L2)
+                cur = Fr(p0)
+                for kind, val, isn in lst:
+                    env = dict(env_cell)
+                    if ph_atoms[0] is not None:
+                        env[ph_atoms[0]] = cur
+                    pa = guard_atoms([post_]) if isinstance(post_, tuple) else set(walk_atoms(post_))
+                    el = [x for x in pa if isinstance(x, App) and x.name in ('elem', 'read') and listparam in repr(x.args[0])]
+                    for x in el:
+                        env[x] = val
+                    for x in pa:
+                        if isinstance(x, App) and x.name == 'isnan' and el and x.args[0] == Rat.atom(el[0]):
+                            env[x] = Fr(isn)
+                    r_ = eval_cond_full(post_, env) if isinstance(post_, tuple) else evaluate(post_, env)
+                    cur = Fr(1 if r_ is True else 0 if r_ is False else r_)
+                return 1 if cur != 0 else 0
         if f2 is None or p0 is None or f2[0] is None or depth > 3:
             raise _Unrecognised('flag %s is not a set-only flag of a loop over the list' % nm)
         return int(f2[0]) if exists_over(L2, f2[1], env_cell, lst, depth) else p0
@@ -205,6 +240,15 @@ def analyse_scan_k(prog, rep, kern, entry, k, O, mode, earlier, data=None, listp
         for a in guard_atoms([g]):
             if isinstance(a, App) and a.name == 'loopout' and a not in e2:
                 e2[a] = Fr(flag_value(a, env, lst, depth))
+        for a in guard_atoms([g]):
+            if isinstance(a, App) and a.name.split('.')[-1] == 'isclose' and a.name.startswith('ext:') and len(a.args) == 2 and a not in e2:
+                # library model of isclose on numbers: |a - b| <= atol + rtol*|b| with the default tolerances; what it says
+                # about NaN depends on a keyword the term does not keep, so NaN operands are not modelled
+                from ..kutil import evaluate
+                va, vb = evaluate(a.args[0], e2), evaluate(a.args[1], e2)
+                if va in (NANV, Fr(202)) or vb in (NANV, Fr(202)):
+                    raise _NanUnknown()
+                e2[a] = Fr(1 if abs(va - vb) <= Fr(1, 10 ** 8) + Fr(1, 10 ** 5) * abs(vb) else 0)
         return eval_cond_full(g, e2)
     all_atoms = set()
     for pth in paths:
@@ -243,7 +287,10 @@ def analyse_scan_k(prog, rep, kern, entry, k, O, mode, earlier, data=None, listp
                 for lst in itertools.product(KINDS, repeat=n_):
                     matches_plain = any(kd == ck and kd != 'nan' for kd, v_, isn in lst)
                     matches_nan = matches_plain or (ck == 'nan' and any(kd == 'nan' for kd, v_, isn in lst))
-                    got = any(all(ev_guard(g, env_cell, lst) for g in pth) for pth in paths)
+                    try:
+                        got = any(all(ev_guard(g, env_cell, lst) for g in pth) for pth in paths)
+                    except _NanUnknown:
+                        got = None
                     table.append((ck, tuple(kd for kd, v_, isn in lst), got, matches_plain, matches_nan))
     except CannotEvaluate as e:
         raise _Unrecognised(str(e))
@@ -259,11 +306,13 @@ def analyse_scan_k(prog, rep, kern, entry, k, O, mode, earlier, data=None, listp
         # the flag is set (the scan stops) for a cell that matches NO excluded value, NaN matching NaN
         plain_rows = [r_ for r_ in table if r_[0] != 'nan' and 'nan' not in r_[1]]
         bad_plain = [(r_[0], r_[1]) for r_ in plain_rows if r_[2] != (not r_[3])]
-        bad_nan = [(r_[0], r_[1]) for r_ in table if r_[2] != (not r_[4])]
+        bad_nan = [(r_[0], r_[1]) for r_ in table if r_[2] is not None and r_[2] != (not r_[4])]
+        unknown = [r_ for r_ in table if r_[2] is None]
         rep.add('T2-keep', kern, entry, site + ': keep test', X.node.lineno, not bad_plain,
                 'a cell is kept iff it equals no excluded value; the first such cell must set the stop flag; wrong for (cell, list): %s'
                 % bad_plain[:4])
-        rep.add('T1', kern, entry, site + ': equality with an excluded value', used_loops[-1].node.lineno, not bad_nan and whole,
+        rep.add('T1', kern, entry, site + ': equality with an excluded value', used_loops[-1].node.lineno,
+                (not bad_nan and whole) if (bad_nan or not whole or not unknown) else None,
                 'the exclusion list may contain NaN (it does by default) and `NaN == NaN` is False: the test must be NaN-aware, for '
                 'every value of the list - a NaN cell is excluded exactly when NaN is listed, otherwise NaN borders are never '
                 'trimmed or always trimmed; wrong for (cell, list): %s; whole list examined: %s' % (bad_nan[:4], whole))
@@ -606,6 +655,8 @@ def analyse(prog, rep, pubname, mode):
     for lp in loops:
         r = None
         O = next((L for L in kk.loops if L.node is lp), None) if kk is not None else None
+        if O is not None and (getattr(O, 'iterable', None) == ('param', listparam) or getattr(getattr(O, 'iterable', None), 'name', None) == listparam):
+            continue          # a pass over the value list (something computed once before the scans), not a scan of the raster
         if O is not None:
             mark = len(rep.obs)
             try:
